@@ -156,6 +156,14 @@ func runC04(s *Svc, m *spec.Method, tier string) *MethodResult {
 	}
 	sp := s.Spec
 	if m.Payload != nil {
+		if rt := sp.RequestType(s.Service, m); rt != m.Payload {
+			// validations written on the HTTP mapping elements (endpoint, service, API level) are
+			// constraints on the payload like any other: value menus and verdicts are computed on
+			// the payload type with those rules folded in
+			mc := *m
+			mc.Payload = rt
+			m = &mc
+		}
 		l := RequestLayout(sp, s.Service, m)
 		seen := map[string]bool{}
 		for _, v := range payloadValues(s, m, l) {
@@ -192,6 +200,12 @@ func runC04(s *Svc, m *spec.Method, tier string) *MethodResult {
 	}
 	if m.Result != nil && s.NumResults(m.Name) == 2 {
 		first := successResponses(m)[0]
+		if rt := sp.ResponseType(m, &first); rt != m.Result {
+			// validations written on the response's headers / cookies: folded into the result type
+			mc := *m
+			mc.Result = rt
+			m = &mc
+		}
 		l := ResponseLayout(sp, m, &first)
 		seen := map[string]bool{}
 		for _, v := range resultValues(s, m, l) {
